@@ -1499,6 +1499,11 @@ func (c *compiler) compileArray(e *Array) error {
 			(i < l-1 && c.codes[pc+i*2+l+1].op != opjump) {
 			return nil
 		}
+		// each constant has to be an element of its own: `(1, . | 2)` has
+		// the same instructions, but its jump leads to the 2, not past it
+		if i < l-1 && c.codes[pc+i*2+l+1].v != pc+i*2+l+3 {
+			return nil
+		}
 	}
 	v := make([]any, l)
 	for i := range l {
